@@ -91,7 +91,7 @@ static void prop_c03_encoding(hz::Ctx &ctx) {
   for (auto &r : refs) {
     std::string immslot; for (auto &s : r.slots) if (is_imm_slot(s)) immslot = s;
     char pol = imm_policy(immslot); int space = imm_space(immslot, r.size);
-    auto sps = imm_spellings(space == 8 && pol == 'U' ? 8 : (immslot == "IPUSH" ? 64 : r.size), pol, rng, ctx.thorough() ? 400 : 60, true);
+    auto sps = imm_spellings(space == 8 && pol == 'U' ? 8 : (immslot == "IPUSH" ? 64 : r.size), pol, rng, ctx.thorough() ? 600 : 160, true);
     if (pol == 'U') { sps.clear(); for (int v = 0; v < 256; v++) { sps.push_back({(uint64_t)v, false, true, 0}); sps.push_back({(uint64_t)v, false, false, 0}); } }
     // destination kinds: every register (incl. accumulator and r8-r15) / a list of memory shapes
     size_t ndest = 0; std::vector<std::vector<WOpd>> destsets;
@@ -250,7 +250,7 @@ static RelVerdict check_rel(const LineCase &c) {
 
 void prop_c05(hz::Ctx &ctx) {
   hz::Rng rng(ctx.seed ^ 0xc05);
-  auto rels = rel_values(rng, ctx.thorough() ? 20000 : 2000);
+  auto rels = rel_values(rng, ctx.thorough() ? 100000 : 12000);
   auto refs = form_refs([](const Form &f) { return std::string(f.pat) == "REL"; });
   for (auto &r : refs) {
     for (int kw = 0; kw < 3; kw++) {
